@@ -10,7 +10,7 @@ import (
 
 func init() {
 	register("C05", &propSpec{
-		technique: "static analysis: sibling agreement over all Policy.Select implementations (returned host behind its own Available() edge, nil only after loop exhaustion), induction-variable form of probe indices, module-wide atomic-access consistency",
+		technique: "static analysis: sibling agreement over all Policy.Select implementations (returned host behind its own Available() edge, nil only after loop exhaustion), induction-variable form of probe indices, module-wide atomic-access consistency, decision-table extraction of every policy by abstract evaluation of its SSA (E10)",
 		run:       runC05,
 		decided: "R1 every policy (and the upstream's own Select) returns a host only behind the true edge of Available() on that same host, or delegates to another policy; " +
 			"R2 a nil result is returned only after a loop over the whole pool was exhausted; " +
@@ -18,8 +18,9 @@ func init() {
 			"R5 every struct field that is accessed through sync/atomic anywhere is accessed through it everywhere; " +
 			"R6 the retry loop keeps retrying unless the client cancelled or the try duration is spent and ends in 502; " +
 			"R7 every attempt gets the rewound buffered body and buffering is decided by exactly {more than one host, retries enabled}; " +
-			"R8 the hash policies' first slot is a function of key and pool length only (deterministic hash of the whole key), and each policy keys by its documented request attribute — ip_hash by the client address with the port removed by net.SplitHostPort.",
-		notDecided: "evenness of round_robin and random; hash stability across pool changes; timing of try_duration; outcome under all failure patterns.",
+			"R8 the hash policies' first slot is a function of key and pool length only (deterministic hash of the whole key), and each policy keys by its documented request attribute — ip_hash by the client address with the port removed by net.SplitHostPort; " +
+			"R9 the full selection table of first, least_conn, random, round_robin and the hash probe for pools of up to four backends under every availability mask (least-loaded, earliest, cyclic-next, an even rotation when all are up, nil exactly when none is available).",
+		notDecided: "evenness of random, and of round_robin when some backends are down; pools of more than four backends; hash stability across pool changes; timing of try_duration; outcome under all failure patterns.",
 	})
 	register("C14", &propSpec{
 		technique: "static analysis: SSA increment/decrement pairing incl. defer and go-closure releases, module-wide atomic-access consistency, check-then-act atomicity classification",
@@ -40,6 +41,7 @@ func runC05(r *Report, p *Program) {
 	c05R6(h)
 	bodyReplayRule(h, "R7")
 	c05R8(h)
+	c05R9(h)
 }
 
 func selectFuncs(h H, rule string) []*ssa.Function {
